@@ -341,14 +341,11 @@ def r6(idx, rep):
     fp2, ps2 = K.sym_result(idx, "ResultRegistrar", "_fingerprint", args={"path": "D/none.csv"}, handlers=SMo.handlers(fsb))
     rep.check(len(ps) == 1 and ps[0].result == ("return", SMo.MFS.sha("a,b\n1,2\n")) and ps2[0].result == ("return", None), "R6",
               f"{fp.file}::ResultRegistrar._fingerprint sha256 of the bytes", f"{ps[0].result} / {ps2[0].result}", K.where(fp, fp.node))
-    # run folds
-    for meth, pred in (("all_completed", "{v}.csvpath.completed"),):
-        f = idx.method("ResultsRegistrar", meth)
-        ok, d = c04.fold_is_all(f, lambda e, var, positive, pred=pred: (unparse(e) == pred.format(v=var), unparse(e)))
-        rep.check(ok, "R6", f"{f.file}::ResultsRegistrar.{meth} fold", f"{d}", K.where(f, f.node))
-    fa = idx.method("ResultsRegistrar", "all_valid")
-    ok, d = c04.fold_is_all(fa, lambda e, var, positive: (unparse(e) == f"{var}.csvpath.is_valid", unparse(e)))
-    rep.check(ok, "R6", f"{fa.file}::ResultsRegistrar.all_valid fold", f"{d}", K.where(fa, fa.node))
+    # run folds: interpreted over every member list of <= 3 (members with and without collected lines)
+    for meth, key, kind in (("all_completed", "csvpath.completed", "all"), ("all_valid", "csvpath.is_valid", "all"), ("error_count", "errors_count", "sum")):
+        f, ok, d, _ = K.fold_table(idx, "ResultsRegistrar", meth, key, kind=kind)
+        rep.analysed(f)
+        rep.check(ok, "R6", f"{f.file}::ResultsRegistrar.{meth} fold", d, K.where(f, f.node))
     fe = idx.method("ResultsRegistrar", "error_count")
     it = Interp(idx, types={"self": "ResultsRegistrar"}, unknown_calls="residual")
     ps = it.run_all(fe, store={"self.results": [Obj("r0"), Obj("r1")], "r0.errors_count": 2, "r1.errors_count": 3})
